@@ -38,35 +38,61 @@ static inline const char *pname(int p) {
 }
 static const ld PI_L = 3.14159265358979323846264338327950288L;
 
-// Solve A X = B (A m x m, B m x k, both row-major) by Gaussian elimination with partial pivoting.
-// Returns false if a pivot is zero or not finite.
-static inline bool solve(int m, std::vector<cl> A, int k, std::vector<cl> &B) {
-    for (int r = 0; r < m; r++) {       // row equilibration
-        ld mx = 0; for (int j = 0; j < m; j++) mx = std::max(mx, std::abs(A[r * m + j]));
-        if (!(mx > 0) || !std::isfinite((double)mx)) return false;
-        for (int j = 0; j < m; j++) A[r * m + j] /= mx;
-        for (int j = 0; j < k; j++) B[r * k + j] /= mx;
+// ---- linear algebra in binary128 ------------------------------------------------------------
+// The reference has to be (much) more accurate than the double arithmetic it judges, also where its
+// own formulation cancels (e.g. S12 of a badly scaled H matrix), so the elimination runs in
+// __float128 (eps ~ 1e-34); inputs and results are long double.
+typedef __float128 qf;
+struct qc { qf re, im; };
+static inline qc Q(cl z) { return qc{(qf)z.real(), (qf)z.imag()}; }
+static inline qc Q(qf r) { return qc{r, 0}; }
+static inline cl L(qc z) { return cl((ld)z.re, (ld)z.im); }
+static inline qc operator+(qc a, qc b) { return qc{a.re + b.re, a.im + b.im}; }
+static inline qc operator-(qc a, qc b) { return qc{a.re - b.re, a.im - b.im}; }
+static inline qc operator-(qc a) { return qc{-a.re, -a.im}; }
+static inline qc operator*(qc a, qc b) { return qc{a.re * b.re - a.im * b.im, a.re * b.im + a.im * b.re}; }
+static inline qc operator*(qc a, qf k) { return qc{a.re * k, a.im * k}; }
+static inline qf qabs(qf x) { return x < 0 ? -x : x; }
+static inline qf mag1(qc a) { return qabs(a.re) + qabs(a.im); }
+static inline qc operator/(qc a, qc b) {
+    // scale to avoid over/underflow of |b|^2
+    qf s = mag1(b); qc bs{b.re / s, b.im / s}; qf d = bs.re * bs.re + bs.im * bs.im;
+    qc as{a.re / s, a.im / s};
+    return qc{(as.re * bs.re + as.im * bs.im) / d, (as.im * bs.re - as.re * bs.im) / d};
+}
+static inline qc qconj(qc a) { return qc{a.re, -a.im}; }
+static inline bool qfinite(qc a) { return std::isfinite((double)(ld)a.re) && std::isfinite((double)(ld)a.im); }
+static inline qf qsqrt(qf a) { qf x = (qf)sqrtl((ld)a); if (x > 0) { x = x - (x * x - a) / (2 * x); x = x - (x * x - a) / (2 * x); } return x; }
+
+// Solve A X = B (A m x m, B m x k, both row-major) by Gaussian elimination with row equilibration
+// and partial pivoting.  Returns false if a pivot is zero or not finite.
+static inline bool solve(int m, std::vector<qc> A, int k, std::vector<qc> &B) {
+    for (int r = 0; r < m; r++) {
+        qf mx = 0; for (int j = 0; j < m; j++) { qf a = mag1(A[r * m + j]); if (a > mx) mx = a; }
+        if (!(mx > 0) || !std::isfinite((double)(ld)mx)) return false;
+        for (int j = 0; j < m; j++) A[r * m + j] = A[r * m + j] * (1 / mx);
+        for (int j = 0; j < k; j++) B[r * k + j] = B[r * k + j] * (1 / mx);
     }
     for (int c = 0; c < m; c++) {
-        int p = c; ld best = std::abs(A[c * m + c]);
-        for (int r = c + 1; r < m; r++) { ld a = std::abs(A[r * m + c]); if (a > best) { best = a; p = r; } }
-        if (!(best > 0) || !std::isfinite((double)best)) return false;
+        int p = c; qf best = mag1(A[c * m + c]);
+        for (int r = c + 1; r < m; r++) { qf a = mag1(A[r * m + c]); if (a > best) { best = a; p = r; } }
+        if (!(best > 0) || !std::isfinite((double)(ld)best)) return false;
         if (p != c) {
             for (int j = 0; j < m; j++) std::swap(A[p * m + j], A[c * m + j]);
             for (int j = 0; j < k; j++) std::swap(B[p * k + j], B[c * k + j]);
         }
-        cl piv = A[c * m + c];
+        qc piv = A[c * m + c];
         for (int r = c + 1; r < m; r++) {
-            cl f = A[r * m + c] / piv;
-            if (f == cl(0)) continue;
-            for (int j = c; j < m; j++) A[r * m + j] -= f * A[c * m + j];
-            for (int j = 0; j < k; j++) B[r * k + j] -= f * B[c * k + j];
+            if (mag1(A[r * m + c]) == 0) continue;
+            qc f = A[r * m + c] / piv;
+            for (int j = c; j < m; j++) A[r * m + j] = A[r * m + j] - f * A[c * m + j];
+            for (int j = 0; j < k; j++) B[r * k + j] = B[r * k + j] - f * B[c * k + j];
         }
     }
     for (int c = m - 1; c >= 0; c--) {
         for (int j = 0; j < k; j++) {
-            cl s = B[c * k + j];
-            for (int q = c + 1; q < m; q++) s -= A[c * m + q] * B[q * k + j];
+            qc s = B[c * k + j];
+            for (int q = c + 1; q < m; q++) s = s - A[c * m + q] * B[q * k + j];
             B[c * k + j] = s / A[c * m + c];
         }
     }
@@ -74,22 +100,24 @@ static inline bool solve(int m, std::vector<cl> A, int k, std::vector<cl> &B) {
 }
 
 // Rows of the "in" and "out" selectors of type p over u = (v, i); each n x 2n.
-static inline void relation(int p, int n, const cl *z0, std::vector<cl> &Pin, std::vector<cl> &Pout) {
-    Pin.assign((size_t)n * 2 * n, cl(0)); Pout.assign((size_t)n * 2 * n, cl(0));
-    auto V = [&](std::vector<cl> &M, int row, int k, cl c) { M[(size_t)row * 2 * n + k] += c; };
-    auto I = [&](std::vector<cl> &M, int row, int k, cl c) { M[(size_t)row * 2 * n + n + k] += c; };
-    auto Arow = [&](std::vector<cl> &M, int row, int k) { ld K = 1 / std::sqrt(std::fabs(z0[k].real())); V(M, row, k, cl(K / 2)); I(M, row, k, z0[k] * (K / 2)); };
-    auto Brow = [&](std::vector<cl> &M, int row, int k) { ld K = 1 / std::sqrt(std::fabs(z0[k].real())); V(M, row, k, cl(K / 2)); I(M, row, k, -std::conj(z0[k]) * (K / 2)); };
+static inline void relation(int p, int n, const cl *z0, std::vector<qc> &Pin, std::vector<qc> &Pout) {
+    Pin.assign((size_t)n * 2 * n, qc{0, 0}); Pout.assign((size_t)n * 2 * n, qc{0, 0});
+    auto V = [&](std::vector<qc> &M, int row, int k, qc c) { M[(size_t)row * 2 * n + k] = M[(size_t)row * 2 * n + k] + c; };
+    auto I = [&](std::vector<qc> &M, int row, int k, qc c) { M[(size_t)row * 2 * n + n + k] = M[(size_t)row * 2 * n + n + k] + c; };
+    auto K = [&](int k) { return 1 / qsqrt(qabs((qf)z0[k].real())); };
+    auto Arow = [&](std::vector<qc> &M, int row, int k) { qf h = K(k) / 2; V(M, row, k, Q(h)); I(M, row, k, Q(z0[k]) * h); };
+    auto Brow = [&](std::vector<qc> &M, int row, int k) { qf h = K(k) / 2; V(M, row, k, Q(h)); I(M, row, k, -qconj(Q(z0[k])) * h); };
+    const qc one{1, 0}, mone{-1, 0};
     switch (p) {
     case P_S: for (int k = 0; k < n; k++) { Arow(Pin, k, k); Brow(Pout, k, k); } break;
-    case P_Z: for (int k = 0; k < n; k++) { I(Pin, k, k, 1); V(Pout, k, k, 1); } break;
-    case P_Y: for (int k = 0; k < n; k++) { V(Pin, k, k, 1); I(Pout, k, k, 1); } break;
+    case P_Z: for (int k = 0; k < n; k++) { I(Pin, k, k, one); V(Pout, k, k, one); } break;
+    case P_Y: for (int k = 0; k < n; k++) { V(Pin, k, k, one); I(Pout, k, k, one); } break;
     case P_T: Brow(Pout, 0, 0); Arow(Pout, 1, 0); Arow(Pin, 0, 1); Brow(Pin, 1, 1); break;
     case P_U: Arow(Pout, 0, 1); Brow(Pout, 1, 1); Brow(Pin, 0, 0); Arow(Pin, 1, 0); break;
-    case P_H: V(Pout, 0, 0, 1); I(Pout, 1, 1, 1); I(Pin, 0, 0, 1); V(Pin, 1, 1, 1); break;
-    case P_G: I(Pout, 0, 0, 1); V(Pout, 1, 1, 1); V(Pin, 0, 0, 1); I(Pin, 1, 1, 1); break;
-    case P_A: V(Pout, 0, 0, 1); I(Pout, 1, 0, 1); V(Pin, 0, 1, 1); I(Pin, 1, 1, -1); break;
-    case P_B: V(Pout, 0, 1, 1); I(Pout, 1, 1, -1); V(Pin, 0, 0, 1); I(Pin, 1, 0, 1); break;
+    case P_H: V(Pout, 0, 0, one); I(Pout, 1, 1, one); I(Pin, 0, 0, one); V(Pin, 1, 1, one); break;
+    case P_G: I(Pout, 0, 0, one); V(Pout, 1, 1, one); V(Pin, 0, 0, one); I(Pin, 1, 1, one); break;
+    case P_A: V(Pout, 0, 0, one); I(Pout, 1, 0, one); V(Pin, 0, 1, one); I(Pin, 1, 1, mone); break;
+    case P_B: V(Pout, 0, 1, one); I(Pout, 1, 1, mone); V(Pin, 0, 0, one); I(Pin, 1, 0, one); break;
     default: break;
     }
 }
@@ -98,28 +126,28 @@ static inline void relation(int p, int n, const cl *z0, std::vector<cl> &Pin, st
 static inline bool convert(int pX, int n, const std::vector<cl> &NX, const cl *z0, int pY, std::vector<cl> &NY) {
     if (!is_matrix(pX) || !is_matrix(pY)) return false;
     if ((is_2x2_only(pX) || is_2x2_only(pY)) && n != 2) return false;
+    if ((int)NX.size() != n * n) return false;
     if (pX == pY) { NY = NX; return true; }
-    std::vector<cl> Pin, Pout;
+    std::vector<qc> Pin, Pout;
     relation(pX, n, z0, Pin, Pout);
     int m = 2 * n;
-    std::vector<cl> Q((size_t)m * m), R((size_t)m * n, cl(0));
-    for (int r = 0; r < n; r++) for (int c = 0; c < m; c++) { Q[(size_t)r * m + c] = Pin[(size_t)r * m + c]; Q[(size_t)(n + r) * m + c] = Pout[(size_t)r * m + c]; }
-    for (int r = 0; r < n; r++) { R[(size_t)r * n + r] = 1; for (int c = 0; c < n; c++) R[(size_t)(n + r) * n + c] = NX[(size_t)r * n + c]; }
-    if (!solve(m, Q, n, R)) return false;          // R = U (2n x n): the n basis states
+    std::vector<qc> Qm((size_t)m * m), R((size_t)m * n, qc{0, 0});
+    for (int r = 0; r < n; r++) for (int c = 0; c < m; c++) { Qm[(size_t)r * m + c] = Pin[(size_t)r * m + c]; Qm[(size_t)(n + r) * m + c] = Pout[(size_t)r * m + c]; }
+    for (int r = 0; r < n; r++) { R[(size_t)r * n + r] = qc{1, 0}; for (int c = 0; c < n; c++) R[(size_t)(n + r) * n + c] = Q(NX[(size_t)r * n + c]); }
+    if (!solve(m, Qm, n, R)) return false;          // R = U (2n x n): the n basis states
     relation(pY, n, z0, Pin, Pout);
-    std::vector<cl> Ain((size_t)n * n, cl(0)), Aout((size_t)n * n, cl(0));
+    std::vector<qc> Ain((size_t)n * n), Aout((size_t)n * n);
     for (int r = 0; r < n; r++) for (int c = 0; c < n; c++) {
-        cl si = 0, so = 0;
-        for (int q = 0; q < m; q++) { si += Pin[(size_t)r * m + q] * R[(size_t)q * n + c]; so += Pout[(size_t)r * m + q] * R[(size_t)q * n + c]; }
+        qc si{0, 0}, so{0, 0};
+        for (int q = 0; q < m; q++) { si = si + Pin[(size_t)r * m + q] * R[(size_t)q * n + c]; so = so + Pout[(size_t)r * m + q] * R[(size_t)q * n + c]; }
         Ain[(size_t)r * n + c] = si; Aout[(size_t)r * n + c] = so;
     }
     // NY Ain = Aout  <=>  Ain^T NY^T = Aout^T
-    std::vector<cl> At((size_t)n * n), Bt((size_t)n * n);
+    std::vector<qc> At((size_t)n * n), Bt((size_t)n * n);
     for (int r = 0; r < n; r++) for (int c = 0; c < n; c++) { At[(size_t)r * n + c] = Ain[(size_t)c * n + r]; Bt[(size_t)r * n + c] = Aout[(size_t)c * n + r]; }
     if (!solve(n, At, n, Bt)) return false;
     NY.assign((size_t)n * n, cl(0));
-    for (int r = 0; r < n; r++) for (int c = 0; c < n; c++) NY[(size_t)r * n + c] = Bt[(size_t)c * n + r];
-    for (auto &x : NY) if (!std::isfinite((double)x.real()) || !std::isfinite((double)x.imag())) return false;
+    for (int r = 0; r < n; r++) for (int c = 0; c < n; c++) { if (!qfinite(Bt[(size_t)c * n + r])) return false; NY[(size_t)r * n + c] = L(Bt[(size_t)c * n + r]); }
     return true;
 }
 
@@ -128,23 +156,24 @@ static inline bool convert(int pX, int n, const std::vector<cl> &NX, const cl *z
 //   (Pout - N Pin) u = 0,   v_j + Z_j i_j = 0 (j != k),   i_k = 1      =>   zin_k = v_k.
 static inline bool to_zin(int pX, int n, const std::vector<cl> &NX, const cl *z0, std::vector<cl> &zin) {
     if (!is_matrix(pX) || (is_2x2_only(pX) && n != 2)) return false;
-    std::vector<cl> Pin, Pout;
+    if ((int)NX.size() != n * n) return false;
+    std::vector<qc> Pin, Pout;
     relation(pX, n, z0, Pin, Pout);
     int m = 2 * n;
     zin.assign(n, cl(0));
     for (int k = 0; k < n; k++) {
-        std::vector<cl> A((size_t)m * m, cl(0)), B((size_t)m, cl(0));
+        std::vector<qc> A((size_t)m * m, qc{0, 0}), B((size_t)m, qc{0, 0});
         for (int r = 0; r < n; r++) for (int c = 0; c < m; c++) {
-            cl s = Pout[(size_t)r * m + c];
-            for (int q = 0; q < n; q++) s -= NX[(size_t)r * n + q] * Pin[(size_t)q * m + c];
+            qc s = Pout[(size_t)r * m + c];
+            for (int q = 0; q < n; q++) s = s - Q(NX[(size_t)r * n + q]) * Pin[(size_t)q * m + c];
             A[(size_t)r * m + c] = s;
         }
         int row = n;
-        for (int j = 0; j < n; j++) { if (j == k) continue; A[(size_t)row * m + j] = 1; A[(size_t)row * m + n + j] = z0[j]; row++; }
-        A[(size_t)row * m + n + k] = 1; B[row] = 1;
+        for (int j = 0; j < n; j++) { if (j == k) continue; A[(size_t)row * m + j] = qc{1, 0}; A[(size_t)row * m + n + j] = Q(z0[j]); row++; }
+        A[(size_t)row * m + n + k] = qc{1, 0}; B[row] = qc{1, 0};
         if (!solve(m, A, 1, B)) return false;
-        zin[k] = B[k];
-        if (!std::isfinite((double)zin[k].real()) || !std::isfinite((double)zin[k].imag())) return false;
+        if (!qfinite(B[k])) return false;
+        zin[k] = L(B[k]);
     }
     return true;
 }
